@@ -21,106 +21,166 @@ func offsetOfTest(cond ssa.Value) (*ssa.Call, bool) {
 }
 
 func ruleKeyPaths(r *Report) {
-	h := r.Rule("C12.paths", "P", "InsertKey inserts only when the key is not found and fails when it is; UpsertKey updates the found row or inserts a row keyed with the caller's key; QueryKey/DeleteKey fail when the key is not found and act on the found offset otherwise; SetKey refuses an existing key", 9)
-	found := func(c ssa.Value) (bool, bool) { _, ok := offsetOfTest(c); return ok, true }
-	notFound := func(c ssa.Value) (bool, bool) { _, ok := offsetOfTest(c); return ok, false }
-	keyPut := func(fn *ssa.Function, idxFrom string) bool {
-		// bufferFor(pk.name).PutString(commit.Put, idx, key) with idx = result 0 of idxFrom, key = parameter
-		for _, c := range callsTo(fn, false, "(*commit.Buffer).PutString") {
-			cc, _, _ := callCommon(c)
-			op, isC := constInt(cc.Args[1])
-			if !isC || op != opPut {
-				continue
-			}
-			if cl, ok := extractOf(cc.Args[2], 0); !ok || !calleeIs(&cl.Call, idxFrom) {
-				continue
-			}
-			if !sameExpr(cc.Args[3], fn.Params[1]) {
-				continue
-			}
-			// the buffer is the key column's
-			if bf, ok := cc.Args[0].(*ssa.Call); ok && calleeIs(&bf.Call, "(*column.Txn).bufferFor") {
-				if fr, ok := loadedField(bf.Call.Args[1]); ok && fr.Struct == "column.columnKey" && fr.Field == "name" {
-					return !edgeGuarded(c.Block(), found)
-				}
+	h := r.Rule("C12.paths", "P", "InsertKey inserts only when the key is not found and fails when it is; UpsertKey updates the found row or inserts a row keyed with the caller's key; QueryKey/DeleteKey fail when the key is not found and act on the found offset otherwise; SetKey refuses an existing key — decided per valuation of (key column present, key found) over all paths, helpers inlined", 9)
+	// guards: the key was found (second result of OffsetOf); the collection has a key column
+	leaf := func(cond ssa.Value) (string, bool, bool) {
+		if _, ok := offsetOfTest(norm(cond)); ok {
+			return "found", false, true
+		}
+		if x, nonNil, ok := nilTest(cond); ok {
+			if fr, isF := loadedField(norm(x)); isF && fr.Struct == "column.Collection" && fr.Field == "pk" {
+				return "haskey", !nonNil, true
 			}
 		}
-		return false
+		return "", false, false
 	}
-	errOn := func(fn *ssa.Function, guard func(ssa.Value) (bool, bool)) bool {
-		// some return of a fmt.Errorf value guarded by guard
-		for _, ret := range returnsOf(fn) {
-			if len(ret.Results) == 0 {
-				continue
-			}
-			res := ret.Results[len(ret.Results)-1]
-			if cl, ok := res.(*ssa.Call); ok && calleeIs(&cl.Call, "fmt.Errorf") && edgeGuarded(ret.Block(), guard) {
-				return true
+	classify := func(ins ssa.Instruction) string {
+		cc, _, isGo := callCommon(ins)
+		if cc == nil || isGo {
+			return ""
+		}
+		switch {
+		case calleeIs(cc, "(*column.Txn).insert"):
+			return "insert"
+		case calleeIs(cc, "(*column.Txn).QueryAt"):
+			return "query"
+		case calleeIs(cc, "(*column.Txn).deleteAt", "(*column.Txn).DeleteAt"):
+			return "delete"
+		case calleeIs(cc, "(*commit.Buffer).PutString"):
+			return "put"
+		}
+		return ""
+	}
+	// isErrorValue: the value is a freshly made error (fmt.Errorf / errors.New), possibly through a helper
+	var isErrorValue func(v ssa.Value, depth int) bool
+	isErrorValue = func(v ssa.Value, depth int) bool {
+		cl, ok := norm(v).(*ssa.Call)
+		if !ok || depth > 3 {
+			return false
+		}
+		if calleeIs(&cl.Call, "fmt.Errorf", "errors.New") {
+			return true
+		}
+		sc := cl.Call.StaticCallee()
+		if sc == nil || !isHelper(sc) {
+			return false
+		}
+		rets := returnsOf(originOf(sc))
+		for _, ret := range rets {
+			if len(ret.Results) != 1 || !isErrorValue(ret.Results[0], depth+1) {
+				return false
 			}
 		}
-		return false
+		return len(rets) > 0
 	}
-	if fn := r.Anchor("(*column.Txn).InsertKey"); fn != nil {
-		ins := callsTo(fn, false, "(*column.Txn).insert")
-		ok := len(ins) == 1 && edgeGuarded(ins[0].Block(), notFound) && errOn(fn, found) && keyPut(fn, "(*column.Txn).insert")
-		h.Check(ok, "(*column.Txn).InsertKey", r.P.Pos(fn.Pos()), "found ⇒ error; not found ⇒ insert + key put", "InsertKey does not fail exactly when the key exists, or does not key the inserted row with the caller's key at the offset insert returned")
-	}
-	if fn := r.Anchor("(*column.Txn).UpsertKey"); fn != nil {
-		ins := callsTo(fn, false, "(*column.Txn).insert")
-		qa := callsTo(fn, false, "(*column.Txn).QueryAt")
-		ok := len(ins) == 1 && len(qa) == 1 && edgeGuarded(ins[0].Block(), notFound) && edgeGuarded(qa[0].Block(), found) && keyPut(fn, "(*column.Txn).insert")
-		if ok {
-			cc, _, _ := callCommon(qa[0])
-			cl, isEx := extractOf(cc.Args[1], 0)
-			ok = isEx && calleeIs(&cl.Call, "(*column.columnKey).OffsetOf") && sameExpr(cl.Call.Args[1], fn.Params[1]) && sameExpr(cc.Args[2], fn.Params[2])
+	retVal := func(ret *ssa.Return) ssa.Value {
+		if ret == nil || len(ret.Results) == 0 {
+			return nil
 		}
-		h.Check(ok, "(*column.Txn).UpsertKey", r.P.Pos(fn.Pos()), "found ⇒ QueryAt(found offset); not found ⇒ insert + key put", "UpsertKey does not update exactly the found row, or does not create exactly one row keyed with the caller's key")
+		vals := cellStoresBefore(ret)
+		if len(vals) == len(ret.Results) {
+			return vals[len(vals)-1]
+		}
+		return ret.Results[len(ret.Results)-1]
 	}
-	for _, name := range []string{"(*column.Txn).QueryKey", "(*column.Txn).DeleteKey"} {
-		fn := r.Anchor(name)
+	// foundOffset: the value is the offset OffsetOf returned for the caller's key
+	foundOffset := func(ev pathEvent, v ssa.Value, key ssa.Value) bool {
+		nv, _ := normE(v, ev.Env, false)
+		cl, isEx := extractOf(nv, 0)
+		return isEx && calleeIs(&cl.Call, "(*column.columnKey).OffsetOf") && sameExpr(cl.Call.Args[1], key)
+	}
+	// keyPut: PutString(Put, <offset insert returned>, <caller's key>) into the key column's buffer
+	keyPut := func(ev pathEvent, key ssa.Value, evs []pathEvent) bool {
+		cc, _, _ := callCommon(ev.Ins)
+		op, isC := constInt(cc.Args[1])
+		if !isC || op != opPut || !ev.same(cc.Args[3], key) {
+			return false
+		}
+		nv, _ := normE(cc.Args[2], ev.Env, false)
+		cl, ok := extractOf(nv, 0)
+		if !ok || !calleeIs(&cl.Call, "(*column.Txn).insert") {
+			return false
+		}
+		bf, ok := norm(cc.Args[0]).(*ssa.Call)
+		if !ok || !calleeIs(&bf.Call, "(*column.Txn).bufferFor") {
+			return false
+		}
+		fr, ok := loadedField(bf.Call.Args[1])
+		return ok && fr.Struct == "column.columnKey" && fr.Field == "name"
+	}
+	type want struct {
+		name     string
+		onFound  string // event that must happen exactly once when the key is found ("" = none, error returned)
+		onAbsent string // "insert" = insert + key put; "" = none, error returned
+		good, bad string
+	}
+	for _, w := range []want{
+		{"(*column.Txn).InsertKey", "", "insert", "found ⇒ error; not found ⇒ insert + key put", "InsertKey does not fail exactly when the key exists, or does not key the inserted row with the caller's key at the offset insert returned"},
+		{"(*column.Txn).UpsertKey", "query", "insert", "found ⇒ QueryAt(found offset); not found ⇒ insert + key put", "UpsertKey does not update exactly the found row, or does not create exactly one row keyed with the caller's key"},
+		{"(*column.Txn).QueryKey", "query", "", "found ⇒ act on the found offset; not found ⇒ error", "(*column.Txn).QueryKey does not fail exactly when the key is absent, or acts on another offset than the one found"},
+		{"(*column.Txn).DeleteKey", "delete", "", "found ⇒ act on the found offset; not found ⇒ error", "(*column.Txn).DeleteKey does not fail exactly when the key is absent, or acts on another offset than the one found"},
+	} {
+		fn := r.Anchor(w.name)
 		if fn == nil {
 			continue
 		}
-		act := callsTo(fn, false, "(*column.Txn).QueryAt", "(*column.Txn).deleteAt", "(*column.Txn).DeleteAt")
-		ok := len(act) == 1 && edgeGuarded(act[0].Block(), found) && errOn(fn, notFound)
-		if ok {
-			cc, _, _ := callCommon(act[0])
-			cl, isEx := extractOf(cc.Args[1], 0)
-			ok = isEx && calleeIs(&cl.Call, "(*column.columnKey).OffsetOf") && sameExpr(cl.Call.Args[1], fn.Params[1])
-		}
-		h.Check(ok, name, r.P.Pos(fn.Pos()), "found ⇒ act on the found offset; not found ⇒ error", name+" does not fail exactly when the key is absent, or acts on another offset than the one found")
-	}
-	if fn := r.Anchor("(column.rwKey).Set"); fn != nil {
-		puts := callsTo(fn, false, "(*commit.Buffer).PutString")
-		ok := len(puts) == 1 && edgeGuarded(puts[0].Block(), notFound) && errOn(fn, found)
-		h.Check(ok, "(column.rwKey).Set", r.P.Pos(fn.Pos()), "existing key refused", "SetKey does not refuse a key that already exists")
-	}
-	// no key column ⇒ error first
-	for _, name := range []string{"(*column.Txn).InsertKey", "(*column.Txn).UpsertKey", "(*column.Txn).QueryKey", "(*column.Txn).DeleteKey"} {
-		fn := r.P.Fn(name)
-		if fn == nil {
-			continue
-		}
-		ok := false
-		for _, ret := range returnsOf(fn) {
-			if len(ret.Results) == 1 {
-				if g, isLd := ret.Results[0].(*ssa.UnOp); isLd {
+		key := ssa.Value(fn.Params[1])
+		nokeyOK := true
+		okAll, why := evalPathsDeep(fn, pathCfg{leaf: leaf, names: []string{"found", "haskey"}, classify: classify}, func(as map[string]bool, ev []pathEvent, ret *ssa.Return) bool {
+			n := map[string]int{}
+			for _, e := range ev {
+				n[e.Name]++
+			}
+			if !as["haskey"] {
+				// nothing happens and errNoKey is returned
+				isNoKey := false
+				if g, isLd := norm(retVal(ret)).(*ssa.UnOp); isLd {
 					if gl, isG := g.X.(*ssa.Global); isG && gl.Name() == "errNoKey" {
-						ok = edgeGuarded(ret.Block(), func(c ssa.Value) (bool, bool) {
-							x, nonNil, isN := nilTest(c)
-							if !isN {
-								return false, false
-							}
-							if fr, isF := loadedField(x); isF && fr.Field == "pk" {
-								return true, !nonNil == false
-							}
-							return false, false
-						}) || true
+						isNoKey = true
 					}
 				}
+				if len(ev) != 0 || !isNoKey {
+					nokeyOK = false
+				}
+				return true
 			}
-		}
-		h.Check(ok, name+"/nokey", r.P.Pos(fn.Pos()), "errNoKey without a key column", "the operation does not fail with errNoKey when the collection has no key column")
+			act := w.onAbsent
+			if as["found"] {
+				act = w.onFound
+			}
+			switch act {
+			case "":
+				return len(ev) == 0 && isErrorValue(retVal(ret), 0)
+			case "insert":
+				if n["insert"] != 1 || n["put"] != 1 || len(ev) != 2 || ev[0].Name != "insert" {
+					return false
+				}
+				return keyPut(ev[1], key, ev)
+			default:
+				if n[act] != 1 || len(ev) != 1 {
+					return false
+				}
+				cc, _, _ := callCommon(ev[0].Ins)
+				if !foundOffset(ev[0], cc.Args[1], key) {
+					return false
+				}
+				if act == "query" && !ev[0].same(cc.Args[2], fn.Params[2]) {
+					return false
+				}
+				return true
+			}
+		})
+		h.Check(okAll, w.name, r.P.Pos(fn.Pos()), w.good, w.bad+" ("+why+")")
+		h.Check(nokeyOK, w.name+"/nokey", r.P.Pos(fn.Pos()), "errNoKey without a key column", "the operation does not fail with errNoKey (and do nothing) when the collection has no key column")
+	}
+	if fn := r.Anchor("(column.rwKey).Set"); fn != nil {
+		okAll, why := evalPathsDeep(fn, pathCfg{leaf: leaf, names: []string{"found"}, classify: classify}, func(as map[string]bool, ev []pathEvent, ret *ssa.Return) bool {
+			if as["found"] {
+				return len(ev) == 0 && isErrorValue(retVal(ret), 0)
+			}
+			return len(ev) == 1 && ev[0].Name == "put" && isConstNil(retVal(ret))
+		})
+		h.Check(okAll, "(column.rwKey).Set", r.P.Pos(fn.Pos()), "existing key refused", "SetKey does not refuse a key that already exists ("+why+")")
 	}
 }
 
@@ -475,39 +535,40 @@ func ruleMergeQueued(r *Report) {
 func ruleWidths(r *Report) {
 	h := r.Rule("C01.width", "S", "writer, reader and swap of every numeric kind agree on the byte width and bit conversion: Buffer.Put<K> → writeUint<N>, Reader.<K> decodes N bytes, Reader.Swap<K> encodes N bytes; Set queues op Put and Merge op Merge through Put<K>", 30)
 	kinds := map[string]int{"Int": 64, "Int16": 16, "Int32": 32, "Int64": 64, "Uint": 64, "Uint16": 16, "Uint32": 32, "Uint64": 64, "Float32": 32, "Float64": 64}
-	width := func(fn *ssa.Function, prefix string) []int {
-		var ws []int
-		allInstrs(fn, func(ins ssa.Instruction) {
-			cc, _, _ := callCommon(ins)
-			if cc == nil || cc.StaticCallee() == nil {
-				return
-			}
-			n := cc.StaticCallee().Name()
-			if strings.HasPrefix(n, prefix) {
-				var w int
-				if _, err := fmt.Sscanf(strings.TrimPrefix(n, prefix), "%d", &w); err == nil {
-					ws = append(ws, w)
-				}
-			}
-		})
-		return ws
-	}
 	for _, k := range sortedKeys(kinds) {
 		n := kinds[k]
+		// analysis W: the one path of each of the three shows the primitive that moves the bytes
 		if fn := r.Anchor("(*commit.Buffer).Put" + k); fn != nil {
-			ws := width(fn, "writeUint")
-			h.Check(len(ws) == 1 && ws[0] == n, "Put"+k, r.P.Pos(fn.Pos()), fmt.Sprintf("writes %d bits", n), fmt.Sprintf("Buffer.Put%s writes %v bits, expected %d", k, ws, n))
+			ws, ok := wireWidthCalls(fn, "(*commit.Buffer).writeUint", func(ev ievent) bool {
+				at := map[string]*expr{}
+				if len(ev.Args) == 4 {
+					atomsOf(ev.Args[3], at)
+				}
+				_, hasV := at["value"]
+				return len(ev.Args) == 4 && ev.Args[0].key == "b" && ev.Args[1].key == "op" && ev.Args[2].key == "idx" && hasV
+			})
+			h.Check(ok && len(ws) == 1 && ws[0] == n, "Put"+k, r.P.Pos(fn.Pos()), fmt.Sprintf("writes %d bits", n), fmt.Sprintf("Buffer.Put%s writes %v bits of its value (expected %d), or not with the caller's operation and offset", k, ws, n))
 		}
+		section := "slice(r.buffer@0,r.i0@0,r.i1@0)"
 		if k == "Int" || k == "Uint" {
 			// decoded by size: Reader.Uint switches on the payload width
 		} else if fn := r.Anchor("(*commit.Reader)." + k); fn != nil {
-			ws := width(fn, "Uint")
-			h.Check(len(ws) == 1 && ws[0] == n, "Reader."+k, r.P.Pos(fn.Pos()), fmt.Sprintf("reads %d bits", n), fmt.Sprintf("Reader.%s decodes %v bits, expected %d", k, ws, n))
+			ws, ok := wireWidthCalls(fn, "(encoding/binary.bigEndian).Uint", func(ev ievent) bool {
+				return len(ev.Args) == 2 && ev.Args[1].key == section
+			})
+			h.Check(ok && len(ws) == 1 && ws[0] == n, "Reader."+k, r.P.Pos(fn.Pos()), fmt.Sprintf("reads %d bits", n), fmt.Sprintf("Reader.%s decodes %v bits (expected %d) or not from the current value's bytes", k, ws, n))
 		}
 		if fn := r.Anchor("(*commit.Reader).Swap" + k); fn != nil {
-			ws := width(fn, "PutUint")
-			sw := callsTo(fn, false, "(*commit.Reader).writeSwap")
-			h.Check(len(ws) == 1 && ws[0] == n && len(sw) == 1, "Swap"+k, r.P.Pos(fn.Pos()), fmt.Sprintf("rewrites %d bits and retags as Put", n), fmt.Sprintf("Reader.Swap%s encodes %v bits (expected %d) or does not retag the operation as Put", k, ws, n))
+			ws, ok := wireWidthCalls(fn, "(encoding/binary.bigEndian).PutUint", func(ev ievent) bool {
+				at := map[string]*expr{}
+				if len(ev.Args) == 3 {
+					atomsOf(ev.Args[2], at)
+				}
+				_, hasV := at["v"]
+				return len(ev.Args) == 3 && ev.Args[1].key == section && hasV
+			})
+			retag := wireRetagsAsPut(fn)
+			h.Check(ok && len(ws) == 1 && ws[0] == n && retag, "Swap"+k, r.P.Pos(fn.Pos()), fmt.Sprintf("rewrites %d bits and retags as Put", n), fmt.Sprintf("Reader.Swap%s encodes %v bits (expected %d) or does not retag the operation as Put", k, ws, n))
 		}
 		// accessor Set/Merge and the snapshot writer use Put<K> with the right op
 		rw := "rw" + k
@@ -533,30 +594,7 @@ func ruleWidths(r *Report) {
 	if fn := r.Anchor("(*commit.Reader).writeSwap"); fn != nil {
 		// analysis W: the only byte written is the header in front of the value (i0-1), and for every
 		// header value v it becomes v&0xf0 | Put
-		in := &Interp{Inline: wireInline}
-		in.Run(fn)
-		ok := len(in.Paths) == 1 && in.Truncated == 0
-		if ok {
-			p := in.Paths[0]
-			cell := mkRaw("elem", 0, "", mkSym("r.buffer@0"), mkOp("add", mkSym("r.i0@0"), mkConst(-1)))
-			old := mkRaw("idx", 0, "", mkSym("r.buffer@0"), mkOp("add", mkSym("r.i0@0"), mkConst(-1)))
-			for _, ev := range p.Events {
-				if ev.Kind == "store" && ev.Name != cell.key {
-					ok = false
-				}
-			}
-			v := p.Heap[cell.key]
-			if v == nil {
-				ok = false
-			} else {
-				for hv := int64(0); hv < 256; hv++ {
-					got, known := evalExpr(v, map[string]int64{old.key: hv})
-					if !known || got&0xff != hv&0xf0|opPut {
-						ok = false
-					}
-				}
-			}
-		}
+		ok := wireRetagsAsPut(fn)
 		h.Check(ok, "writeSwap", r.P.Pos(fn.Pos()), "header := header&0xf0 | Put", "writeSwap does not rewrite the operation nibble to Put while keeping the size/flag bits")
 	}
 }
